@@ -29,7 +29,7 @@ template <class F> static std::string capture(F f) {
   std::cout.flush(); fflush(stdout); dup2(saved, 1); close(saved);
   off_t n = lseek(fd, 0, SEEK_END); lseek(fd, 0, SEEK_SET); std::string s(n, '\0'); if (n > 0) { ssize_t r = read(fd, &s[0], n); (void)r; } close(fd); return s;
 }
-static std::string jesc(const std::string& s) { std::string r; for (unsigned char c : s) { if (c == '"' || c == '\\') { r.push_back('\\'); r.push_back(c); } else if (c == '\n') r += "\\n"; else if (c < 32) { char b[8]; snprintf(b, 8, "\\u%04x", c); r += b; } else r.push_back(c); } return r; }
+static std::string jesc(const std::string& s) { std::string r; for (unsigned char c : s) { if (c == '"' || c == '\\') { r.push_back('\\'); r.push_back(c); } else if (c == '\n') r += "\\n"; else if (c < 32 || c >= 127) { char b[8]; snprintf(b, 8, "\\u%04x", c); r += b; } else r.push_back(c); } return r; }
 static std::vector<std::string> catalogue(bool ld) {
   std::string out = capture([&] { if (ld) masa_printid<LD>(); else masa_printid<double>(); });
   std::vector<std::string> names; std::istringstream is(out); std::string l; bool in = false;
@@ -71,6 +71,11 @@ static void c13_strings(const std::vector<std::string>& cat, int maxsites, int m
       for (int i = 0; i <= L; i++) for (char c : {'_', 'x', '1'}) { std::string s = n; s.insert(i, 1, c); add(s); }
       for (int i = 0; i < L; i++) if (n[i] == '_') { std::string s = n; s[i] = '-'; add(s); s[i] = ' '; add(s); }
       add(""); add("-"); add(" "); add("- -");
+      // bytes that are neither letters nor separators, NUL included (std::string carries it; the C wrappers cannot): in front, inside, behind
+      for (char c : {'\0', '\t', '\n', '\r', '\x7f', '\xe9', '.', '/'}) {
+        for (int i : {0, L / 2, L}) { std::string s = n; s.insert(i, 1, c); add(s); }
+        add(n + std::string(1, c) + "_transient"); add(up + std::string(1, c)); add("- " + n + std::string(1, c)); add(n + std::string(1, c) + "- ");
+      }
     }
   }
 }
